@@ -50,6 +50,10 @@ impl Range {
     pub fn ok(&self, v: i64) -> bool {
         v >= -self.limit && v < self.limit
     }
+    /// narrow (16-bit) sample type: intermediates of inverse transforms are checked too
+    pub fn narrow(&self) -> bool {
+        self.limit <= 1 << 15
+    }
 }
 
 // ---------------------------------------------------------------------------
@@ -100,6 +104,12 @@ pub fn rct_forward(ch: &mut [Chan], begin_c: usize, rct_type: u32, range: Range)
         }
         if !range.ok(a) || !range.ok(b) || !range.ok(c) {
             return Err(TxError::Range);
+        }
+        if range.narrow() {
+            let inter = if ty == 6 { vec![a - (c >> 1), c + (a - (c >> 1)), (a - (c >> 1)) - (b >> 1)] } else { vec![a + f, c + a, b + a, b + ((a + f) >> 1)] };
+            if inter.iter().any(|&v| !range.ok(v)) {
+                return Err(TxError::Range);
+            }
         }
         ch[begin_c].data[i] = a as i32;
         ch[begin_c + 1].data[i] = b as i32;
@@ -192,9 +202,17 @@ fn squeeze_h_forward(c: &Chan, range: Range) -> Result<(Chan, Chan), TxError> {
             let av = avg.at(x, y) as i64;
             let next = if x + 1 < aw { avg.at(x + 1, y) as i64 } else { av };
             let left = if x > 0 { c.at(2 * x - 1, y) as i64 } else { av };
-            let r = (a - b) - smooth_tendency(left, av, next);
+            let t = smooth_tendency(left, av, next);
+            let r = (a - b) - t;
             if !range.ok(r) {
                 return Err(TxError::Range);
+            }
+            if range.narrow() {
+                // every intermediate of the inverse must fit the narrow sample type
+                let inter = [4 * left - 3 * next - av + 6, 4 * left - 3 * next - av - 6, 4 * left, 3 * next, 2 * (left - av), 2 * (av - next), 2 * (left - av) + 1, 2 * (left - av) - 1, t, a - b, av + (a - b) / 2];
+                if inter.iter().any(|&v| !range.ok(v)) {
+                    return Err(TxError::Range);
+                }
             }
             res.set(x, y, r as i32);
         }
